@@ -101,6 +101,22 @@ func gen(r *verifsim.Rng, tier string) (any, hx.Sched) {
 		s := hx.SwarmSched(r, focus)
 		s.MeanGap = verifsim.Pick(r, []int64{10, 30, 100})
 		s.MaxSteps = 400000
+		if r.Intn(3) == 0 {
+			// the same long stream at script level: send() and receive() are each ONE source
+			// location executed hundreds of times (loop-written producers, while-loop consumers)
+			w.Level = "L2"
+			for i := range w.Producers {
+				w.Producers[i] = verifsim.Pick(r, []int{130, 300})
+			}
+			if r.Intn(2) == 0 {
+				w.Payload = "loopint"
+			} else {
+				w.SharedProd = true
+			}
+			s.MeanGap = verifsim.Pick(r, []int64{1000, 10000, 100000})
+			s.FocusWeight = verifsim.Pick(r, []int32{10, 100})
+			s.MaxSteps = 4000000
+		}
 		return w, s
 	}
 	for i := 0; i < np && maxSends > 0; i++ {
